@@ -28,6 +28,8 @@ pub struct GenOpts {
     pub catch: bool,
     pub help_texts: bool,
     pub env: bool,
+    /// some env-backed items have no name on the command line at all
+    pub env_only: bool,
     pub pure_fail: bool,
     /// positional and command at the same level
     pub pos_and_cmd: bool,
@@ -57,6 +59,7 @@ impl GenOpts {
             catch: false,
             help_texts: true,
             env: false,
+            env_only: true,
             pure_fail: false,
             pos_and_cmd: false,
             custom_help: false,
@@ -83,6 +86,7 @@ impl GenOpts {
             catch: false,
             help_texts: true,
             env: false,
+            env_only: true,
             pure_fail: false,
             pos_and_cmd: false,
             custom_help: false,
@@ -226,7 +230,7 @@ impl<'a> Pool<'a> {
                 n.envs.push(format!("BPAF_VERIF_ENV_{}_B", id));
             }
             // environment only, no name on the command line
-            if self.rng.chance(1, 10) {
+            if self.o.env_only && self.rng.chance(1, 10) {
                 n.shorts.clear();
                 n.longs.clear();
             }
@@ -360,8 +364,23 @@ impl<'a> Pool<'a> {
     /// one named field with a random arity
     pub fn named_field(&mut self) -> Spec {
         let s = match self.rng.below(12) {
-            0 | 1 => Spec::Item(self.flag_item(Leaf::Switch)),
-            2 => Spec::Item(self.flag_item(Leaf::Flag)),
+            0 | 1 => {
+                let it = Spec::Item(self.flag_item(Leaf::Switch));
+                // `switch().many()`: repetition over a parser that can succeed on nothing
+                if self.rng.chance(1, 6) {
+                    Spec::wrap(W::Many { catch: false }, self.id(), it)
+                } else {
+                    it
+                }
+            }
+            2 => {
+                let it = Spec::Item(self.flag_item(Leaf::Flag));
+                if self.rng.chance(1, 6) {
+                    Spec::wrap(W::Many { catch: false }, self.id(), it)
+                } else {
+                    it
+                }
+            }
             3 => {
                 // required flag, possibly counted / optional
                 let it = Spec::Item(self.flag_item(Leaf::ReqFlag));
@@ -379,7 +398,16 @@ impl<'a> Pool<'a> {
                 let c = self.catch();
                 match self.rng.below(9) {
                     0 => it,
-                    1 | 2 => Spec::wrap(W::Optional { catch: c }, self.id(), it),
+                    1 => Spec::wrap(W::Optional { catch: c }, self.id(), it),
+                    2 => {
+                        let o = Spec::wrap(W::Optional { catch: c }, self.id(), it);
+                        // `argument(..).optional().many()`
+                        if self.rng.chance(1, 5) {
+                            Spec::wrap(W::Many { catch: false }, self.id(), o)
+                        } else {
+                            o
+                        }
+                    }
                     3 => Spec::wrap(W::Many { catch: c }, self.id(), it),
                     4 => Spec::wrap(W::Some_ { catch: c }, self.id(), it),
                     5 => Spec::wrap(W::Fallback, self.id(), it),
@@ -439,10 +467,10 @@ impl<'a> Pool<'a> {
             let s = if ix < n_req {
                 it
             } else if ix < n_req + n_opt {
-                if self.rng.chance(1, 4) {
-                    Spec::wrap(W::Fallback, self.id(), it)
-                } else {
-                    Spec::wrap(W::Optional { catch: false }, self.id(), it)
+                match self.rng.below(8) {
+                    0 => Spec::wrap(W::Fallback, self.id(), it),
+                    1 => Spec::wrap(W::FallbackWithOk, self.id(), it),
+                    _ => Spec::wrap(W::Optional { catch: false }, self.id(), it),
                 }
             } else if self.rng.chance(1, 3) {
                 Spec::wrap(W::Some_ { catch: false }, self.id(), it)
@@ -559,6 +587,28 @@ impl<'a> Pool<'a> {
         self.decorate(s)
     }
 
+    /// an optional / defaulted / repeated group of named fields (`construct!(a, b).optional()`)
+    pub fn seq_group(&mut self) -> Spec {
+        let wrapper = self.rng.below(5);
+        let repeated = wrapper == 2;
+        let mut fields = vec![self.simple_required_field()];
+        for _ in 0..self.rng.range(1, 2) {
+            if repeated || self.rng.chance(1, 2) {
+                fields.push(self.simple_required_field());
+            } else {
+                fields.push(self.named_field());
+            }
+        }
+        let g = Spec::Seq(fields);
+        match wrapper {
+            0 => Spec::wrap(W::Optional { catch: false }, self.id(), g),
+            1 => Spec::wrap(W::Fallback, self.id(), g),
+            2 => Spec::wrap(W::Many { catch: false }, self.id(), g),
+            3 => Spec::wrap(W::FallbackWithOk, self.id(), g),
+            _ => g,
+        }
+    }
+
     /// a choice between named things with disjoint names
     pub fn alt_group(&mut self) -> Spec {
         let n = self.rng.range(2, 4);
@@ -593,7 +643,13 @@ impl<'a> Pool<'a> {
             0 | 1 => a,
             2 => Spec::wrap(W::Optional { catch: false }, self.id(), a),
             3 => Spec::wrap(W::Many { catch: false }, self.id(), a),
-            _ => Spec::wrap(W::Fallback, self.id(), a),
+            _ => {
+                if self.rng.chance(1, 2) {
+                    Spec::wrap(W::Fallback, self.id(), a)
+                } else {
+                    Spec::wrap(W::FallbackWithOk, self.id(), a)
+                }
+            }
         }
     }
 
@@ -611,6 +667,8 @@ impl<'a> Pool<'a> {
                 fields.push(self.alt_group());
             } else if self.o.adjacent && r == 1 {
                 fields.push(self.adjacent_group());
+            } else if self.o.alts && r == 2 && self.rng.chance(1, 2) {
+                fields.push(self.seq_group());
             } else {
                 fields.push(self.named_field());
             }
